@@ -14,6 +14,7 @@ mod checks;
 mod forkutil;
 mod mach;
 mod prng;
+mod workloads;
 
 use forkutil::{in_child, write_all_fd, ChildEnd};
 
@@ -55,6 +56,7 @@ fn main() {
         "shrink" => cmd_shrink(&args[2..]),
         "describe" => cmd_describe(&args[2..]),
         "oracle" => cmd_oracle(&args[2..]),
+        "query" => cmd_query(&args[2..]),
         _ => {
             eprintln!("unknown subcommand");
             2
@@ -74,6 +76,35 @@ fn prepare_check(check: &mut Box<dyn Check>, args: &[String]) {
             check.prepare(if o.is_null() { None } else { Some(&o) })
         }
     }
+}
+
+fn cmd_query(args: &[String]) -> i32 {
+    use scryer_prolog::verif_hooks as vh;
+    let mut m = mach::Mach::new();
+    let int_at: Option<u64> = arg_val(args, "--int").and_then(|s| s.parse().ok());
+    let mut skip = false;
+    for q in args {
+        if skip {
+            skip = false;
+            continue;
+        }
+        if q == "--int" {
+            skip = true;
+            continue;
+        }
+        let t0 = vh::ticks();
+        vh::set_catch_trace(true);
+        let is_last = std::ptr::eq(q, args.last().unwrap());
+        let r = m.run_with(q, 50, |k| {
+            if k == 0 && is_last {
+                if let Some(n) = int_at {
+                    vh::interrupt_at(vh::ticks() + n);
+                }
+            }
+        });
+        println!("{}\n   => {}   [{} ticks, interrupt fired at {}] caught by {:?}", q, r.text(), vh::ticks() - t0, vh::interrupt_fired_at().saturating_sub(t0), vh::take_catch_trace());
+    }
+    0
 }
 
 fn cmd_oracle(args: &[String]) -> i32 {
@@ -297,7 +328,7 @@ fn keys_of(check: &mut Box<dyn Check>, prelude: &[Value], case: &Value, timeout_
     }
     if let ChildEnd::Crash(kind) = ended {
         if !got_result {
-            keys.push(format!("crash|{}", kind));
+            keys.push(format!("crash|crash:{}", kind));
         }
     }
     keys
